@@ -13,7 +13,7 @@ CACHE_DIR = "/SIMFS/cache"
 CONFIG = CACHE_DIR + "/file_cache_config.json"
 
 FAILING = {"NOTFOUND", "ERR_BEFORE", "ERR_MID", "ERR_AFTER", "HTTP_404", "HTTP_5XX", "CONN_ERR", "TIMEOUT",
-           "EIO", "ENOSPC", "EMFILE", "SRC_MISSING", "PP_ERR_BEFORE", "PP_ERR_MID", "PP_ERR_AFTER"}
+           "EIO", "ENOSPC", "EMFILE", "SRC_MISSING", "PP_ERR_BEFORE", "PP_ERR_MID", "PP_ERR_AFTER", "RENAME_EIO"}
 NOTFOUND_KINDS = {"NOTFOUND", "HTTP_404", "SRC_MISSING"}
 
 
@@ -135,7 +135,8 @@ class Oracle:
         if obs.exc is not None:
             self.registered = None
             self.ended = True
-            if isinstance(obs.exc, ValueError) and not obs.op.get("evict"):
+            import json as _json
+            if isinstance(obs.exc, ValueError) and not isinstance(obs.exc, _json.JSONDecodeError) and not obs.op.get("evict"):
                 # documented: directory larger than the configured size and no eviction on start-up
                 total = sum(e[0] for e in pre_files.values())
                 lim = self.persisted_max if self.persisted_max is not None else obs.op.get("size") or w.knobs["max_bytes"]
@@ -579,7 +580,8 @@ class Oracle:
                 return self._v("18d", "purge left %d cache files on disk" % len(post_files), obs)
             if obs.length != 0:
                 return self._v("18d", "len(cache)=%d after purge" % obs.length, obs)
-        self.registered = set()
+        # (module-level purge re-creates the cache object: under faults it may adopt orphaned complete files)
+        self.registered = new_reg if self.c19 else set()
         return None
 
     def _check_passive(self, obs):
